@@ -371,6 +371,8 @@ struct ObjBase
   virtual void add_to(Control::CheckpointControl& cp, const std::string& id) = 0;
   virtual void restore_from(Control::CheckpointControl& cp, const std::string& id) = 0;
   virtual vj::Value state(bool& ex) const = 0;
+  virtual void write_bin(std::ostream& os) const = 0;
+  virtual void read_bin(std::istream& is) = 0;
 };
 template<class CT> struct Obj : ObjBase
 {
@@ -380,6 +382,8 @@ template<class CT> struct Obj : ObjBase
   void add_to(Control::CheckpointControl& cp, const std::string& id) override { cp.add_object(String(id), obj); }
   void restore_from(Control::CheckpointControl& cp, const std::string& id) override { cp.restore_object(String(id), obj, false); }
   vj::Value state(bool& ex) const override { return state_of(obj, ex); }
+  void write_bin(std::ostream& os) const override { obj.write_out(FileMode::fm_binary, os); }
+  void read_bin(std::istream& is) override { obj.read_from(FileMode::fm_binary, is); }
 };
 template<class DT, class IT>
 std::unique_ptr<ObjBase> make_obj(const vj::Value& c, bool fresh)
@@ -452,11 +456,108 @@ bool run_ckpt(Ctx& k, const std::string& tag)
   return true;
 }
 
+// ------------------------------------------------------------------------------------------------
+// histories over ONE BinaryStream object (spec/PersistStream.tla)
+// ------------------------------------------------------------------------------------------------
+static bool check_ckpt_bytes(Ctx& k, const vj::Value& ck, const char* data, std::size_t size, const std::string& tag)
+{
+  if(size < 8) return k.fail(tag + ": checkpoint shorter than its length word");
+  std::uint64_t total; std::memcpy(&total, data, 8);
+  if((long long)total != ck["total"].as_int() || size != std::size_t(total) + 8)
+    return k.fail(tag + ": checkpoint length word " + std::to_string(total) + " in a segment of " + std::to_string(size) + " bytes, the format prescribes " + std::to_string(ck["total"].as_int()) + " (+8)");
+  std::size_t p = 8; const vj::Value& ents = ck["entries"];
+  for(std::size_t e = 0; e < ents.size(); ++e)
+  {
+    std::uint64_t il; std::memcpy(&il, data + p, 8); p += 8;
+    const std::string id = ents[e]["id"].as_str();
+    if(il != id.size() || p + il + 8 > size || std::string(data + p, std::size_t(il)) != id) return k.fail(tag + ": checkpoint entry " + std::to_string(e) + " is not identifier '" + id + "'");
+    p += std::size_t(il);
+    std::uint64_t dl; std::memcpy(&dl, data + p, 8); p += 8;
+    if((long long)dl != ents[e]["len"].as_int() || p + dl > size) return k.fail(tag + ": checkpoint entry '" + id + "': data length " + std::to_string(dl) + " expected " + std::to_string(ents[e]["len"].as_int()));
+    if(!check_bin(k, ents[e]["bin"], data + p, std::size_t(dl), tag + "/entry '" + id + "'")) return false;
+    p += std::size_t(dl);
+  }
+  if(p != size) return k.fail(tag + ": trailing bytes in the checkpoint");
+  return true;
+}
+
+template<class DT, class IT>
+bool run_stream(Ctx& k, const std::string& tag0)
+{
+  const vj::Value& c = k.c; const vj::Value& pal = c["palette"]; const vj::Value& cks = c["ckpts"]; const vj::Value& ops = c["ops"];
+  Dist::Comm comm = Dist::Comm::world();
+  BinaryStream bs;                                   // the ONE stream object of the history
+  for(std::size_t s = 0; s < ops.size(); ++s)
+  {
+    const vj::Value& o = ops[s]; const std::string op = o["op"].as_str();
+    const std::string tag = tag0 + "/step " + std::to_string(s + 1) + " " + op;
+    std::size_t arg = std::size_t(o["arg"].as_int()), off = std::size_t(o["off"].as_int());
+    if(op == "write")
+    {
+      std::unique_ptr<ObjBase> obj = make_obj<DT, IT>(pal[arg - 1]["c"], false);
+      bool ex = true; vj::Value pre = obj->state(ex);
+      if(!ex || pre != pal[arg - 1]["arrays"]) return k.pre(tag + ": container state " + js(pre) + " is not the state the specification assumes");
+      obj->write_bin(bs);
+      if(bs.fail()) return k.fail(tag + ": stream in fail state after writing");
+      std::size_t len = std::size_t(pal[arg - 1]["bin"]["len"].as_int());
+      if(std::size_t(bs.size()) != std::size_t(o["size"].as_int())) return k.fail(tag + ": stream holds " + std::to_string(bs.size()) + " bytes, expected " + std::to_string(o["size"].as_int()) + " (the container must be appended at byte " + std::to_string(off) + ")");
+      if(!check_bin(k, pal[arg - 1]["bin"], bs.data() + off, len, tag)) return false;
+    }
+    else if(op == "seek0") { bs.seekg(0); if(bs.fail()) return k.fail(tag + ": seekg(0) failed"); }
+    else if(op == "read")
+    {
+      std::unique_ptr<ObjBase> fresh = make_obj<DT, IT>(pal[arg - 1]["c"], true);
+      fresh->read_bin(bs);
+      if(bs.fail()) return k.fail(tag + ": stream in fail state after reading");
+      bool ex = true; vj::Value got = fresh->state(ex);
+      if(!ex || got != o["res"][0]) return k.fail(tag + ": container read at byte " + std::to_string(off) + " is " + js(got) + " expected " + js(o["res"][0]));
+    }
+    else if(op == "clear") bs.clear();
+    else if(op == "save")
+    {
+      const vj::Value& ck = cks[arg - 1];
+      Control::CheckpointControl cp(comm);
+      std::vector<std::unique_ptr<ObjBase>> held;
+      for(std::size_t e = 0; e < ck["entries"].size(); ++e)
+      {
+        held.push_back(make_obj<DT, IT>(pal[std::size_t(ck["entries"][e]["o"].as_int()) - 1]["c"], false));
+        held.back()->add_to(cp, ck["entries"][e]["id"].as_str());
+      }
+      cp.save(bs);
+      if(bs.fail()) return k.fail(tag + ": stream in fail state after saving");
+      if(std::size_t(bs.size()) != std::size_t(o["size"].as_int())) return k.fail(tag + ": stream holds " + std::to_string(bs.size()) + " bytes, expected " + std::to_string(o["size"].as_int()) + " (the checkpoint must be appended at byte " + std::to_string(off) + ")");
+      if(!check_ckpt_bytes(k, ck, bs.data() + off, std::size_t(ck["total"].as_int()) + 8, tag)) return false;
+    }
+    else if(op == "load")
+    {
+      const vj::Value& ck = cks[arg - 1];
+      Control::CheckpointControl cp2(comm);
+      cp2.load(bs);
+      for(std::size_t e = 0; e < ck["entries"].size(); ++e)
+      {
+        const std::string id = ck["entries"][e]["id"].as_str();
+        std::unique_ptr<ObjBase> fresh = make_obj<DT, IT>(pal[std::size_t(ck["entries"][e]["o"].as_int()) - 1]["c"], true);
+        fresh->restore_from(cp2, id);
+        bool ex = true; vj::Value got = fresh->state(ex);
+        if(!ex || got != o["res"][e]) return k.fail(tag + ": object restored for identifier '" + id + "' is " + js(got) + " expected " + js(o["res"][e]));
+      }
+    }
+    else return k.fail("unknown stream operation " + op);
+    // size and the single position of the stream after every call
+    if(std::size_t(bs.size()) != std::size_t(o["size"].as_int())) return k.fail(tag + ": stream holds " + std::to_string(bs.size()) + " bytes, expected " + std::to_string(o["size"].as_int()));
+    long long p = (long long)bs.tellg();
+    if(p != o["pos"].as_int()) return k.fail(tag + ": stream position is " + std::to_string(p) + " expected " + std::to_string(o["pos"].as_int()));
+  }
+  return true;
+}
+
 vj::Value run_case(const vj::Value& c)
 {
   Ctx k(c);
   bool ok; int cdt = int(c["cdt"].as_int());
-  if(c["part"].as_str() == "ckpt")
+  if(c["part"].as_str() == "stream")
+    ok = (cdt == 8) ? run_stream<double, std::uint64_t>(k, "f64/u64") : run_stream<float, std::uint32_t>(k, "f32/u32");
+  else if(c["part"].as_str() == "ckpt")
     ok = (cdt == 8) ? run_ckpt<double, std::uint64_t>(k, "f64/u64") : run_ckpt<float, std::uint32_t>(k, "f32/u32");
   else
     ok = (cdt == 8) ? run_io_kind<double, std::uint64_t>(k, "f64/u64") : run_io_kind<float, std::uint32_t>(k, "f32/u32");
